@@ -709,6 +709,9 @@ func (e *Exec) Run() []Obs {
 			if r.Class() == "panic" && os.Getenv("VERIF_DEBUG") != "" {
 				fmt.Fprintf(os.Stderr, "TX-PANIC %s\n", r.Log)
 			}
+			if r.Class() == "rejected" && os.Getenv("VERIF_DEBUG") == "2" {
+				fmt.Fprintf(os.Stderr, "TX-REJECTED event=%d %s\n", len(out), r.Log)
+			}
 			if r.Class() == "ok" {
 				for _, x := range r.Events {
 					switch {
